@@ -3,13 +3,9 @@
 (`@ Cxx <kind> args…` header line, then one operation per line), prints exactly one
 output line per input line.  Core-only imports (no Mathlib) so it links.
 -/
-import Golib.Proto
-import Golib.Model.C10
+import Oracle.Registry
 
 open Golib.Proto
-
-def registry : List (String × (List String → List String → List String)) :=
-  [ ("C10", Golib.C10.runCase) ]
 
 def runCase (lines : Array String) : List String :=
   match lines.toList with
